@@ -117,7 +117,9 @@ let replay line =
      | TKindB (a, want) ->
          Hashtbl.replace kind a (`B (List.length !s.bks));
          apply idx 0 "BStart" (BStart (List.map ni_ want))
-     | TKindP (a, kd) -> Hashtbl.replace kind a (`P (min kd kd_cap)); if a = !last_p then in_further := true
+     | TKindP (a, kd) -> Hashtbl.replace kind a (`P (min kd kd_cap));
+         (* a further prune with its own (long) keep_delete is outside the case's `timely` regime *)
+         if a = !last_p && min kd kd_cap <> !case_kd then in_further := true
      | TKindF a -> Hashtbl.replace kind a `F
      | TKD _ -> ()
      | TLI a ->
@@ -152,7 +154,7 @@ let replay line =
                 | TWP (a', _, bl) when a' = a -> wrote := bl @ !wrote
                 | _ -> ());
               let rw = List.filter_map (fun ri -> Hashtbl.find_opt imap ri) !xi in
-              let rw = if !any_wi then rw else [] in
+              ignore !any_wi;
               let rp p = try Hashtbl.find pinv (in_ p) with Not_found -> -1 in
               let du = dunm q.pview and dm = dmk q.pview in
               let asg_u = List.map (fun (fi, (p, bl)) ->
@@ -191,6 +193,16 @@ let replay line =
          if phase_of c = BListed then apply idx 0 "BIndex(empty)" (BIndex (ni_ c));
          Hashtbl.replace smap rs (in_ !s.nexts);
          apply idx 0 "BSnap" (BSnap (ni_ c))
+     | (TXI (a, _) | TXP (a, _)) when (match !s.prn with Some q -> q.pph = PPlanned | None -> false) ->
+         (* the real prune removes files without having written an index file: Indexer::save writes
+            nothing when the rebuilt index has neither packs nor marks.  The model always writes the
+            new index: it must be empty, otherwise the real code dropped index entries. *)
+         apply idx (pkd a) "PWriteIndex(empty, not written)" PWriteIndex;
+         (if !rej = "" then
+            match List.rev !s.idxs with
+            | (_, f) :: _ when f.unm = [] && f.mk = [] -> ()
+            | _ -> rej := Printf.sprintf "index-file-not-written-but-model-index-nonempty@%d" idx);
+         decr i
      | TXI (a, ri) ->
          (match Hashtbl.find_opt imap ri with
           | Some mi -> apply idx (pkd a) "PRmIndex" (PRmIndex (ni_ mi))
